@@ -282,7 +282,8 @@ pub fn search_leg<M: Matcher, S: grep_searcher::Sink>(
                 let mut f = std::fs::File::create(&path).expect("tmp file");
                 f.write_all(input).expect("tmp write");
             }
-            if *mmap {
+            // (Miri does not support file-backed memory maps)
+            if *mmap && !cfg!(miri) {
                 // SAFETY: the file is private to this thread and not
                 // modified while mapped.
                 b.memory_map(unsafe { MmapChoice::auto() });
